@@ -3,12 +3,22 @@ package main
 import (
 	"bytes"
 	"context"
+	"crypto/ecdsa"
+	"crypto/elliptic"
+	"crypto/rand"
+	"crypto/tls"
+	"crypto/x509"
+	"crypto/x509/pkix"
+	"encoding/pem"
 	"errors"
 	"fmt"
 	"io"
+	"math/big"
 	"net"
 	"net/http"
 	"net/url"
+	"os"
+	"path/filepath"
 	"sync"
 	"sync/atomic"
 	"time"
@@ -20,6 +30,7 @@ import (
 	"github.com/andydunstall/piko/client"
 	"github.com/andydunstall/piko/forward"
 	"github.com/andydunstall/piko/pkg/log"
+	"github.com/andydunstall/piko/server/config"
 	pikows "github.com/andydunstall/piko/pkg/websocket"
 	"verifharness/internal/e4"
 	"verifharness/internal/evid"
@@ -397,6 +408,7 @@ type tunnelCase struct {
 	Size   int    `json:"bytes"`
 	Empty  bool   `json:"empty_write_between"`
 	Closer string `json:"closer"` // client | upstream
+	TLS    bool   `json:"tls_cluster,omitempty"`
 }
 
 // echoServer: a TCP-level upstream behaviour shared by all paths: echo
@@ -435,6 +447,7 @@ func (e *echoBehaviour) serve(c net.Conn) {
 }
 
 type tunnelWorld struct {
+	tls    *tls.Config // set: the proxy ports (and node-to-node forwarding) use TLS
 	nodes  []*e4.FullNode
 	echo   *echoBehaviour
 	raw    *rawUpstream // endpoint t1: harness-held yamux session (stream count observable)
@@ -445,12 +458,29 @@ type tunnelWorld struct {
 	cfwd   *client.Forwarder
 }
 
-func newTunnelWorld() *tunnelWorld {
-	nodes, err := e4.StartCluster(2, nil)
+func newTunnelWorld() *tunnelWorld { return newTunnelWorldTLS("") }
+
+// newTunnelWorldTLS: with tlsDir set, the proxy ports listen on TLS and the
+// nodes forward to each other over TLS (cert.pem/key.pem in tlsDir).
+func newTunnelWorldTLS(tlsDir string) *tunnelWorld {
+	var mutate func(i int, c *config.Config)
+	var clientTLS *tls.Config
+	if tlsDir != "" {
+		cert, key := filepath.Join(tlsDir, "cert.pem"), filepath.Join(tlsDir, "key.pem")
+		mutate = func(i int, c *config.Config) {
+			c.Proxy.TLS.Cert, c.Proxy.TLS.Key = cert, key
+			c.Proxy.TLS.Client.RootCAs = cert
+		}
+		pem, _ := os.ReadFile(cert)
+		pool := x509.NewCertPool()
+		pool.AppendCertsFromPEM(pem)
+		clientTLS = &tls.Config{RootCAs: pool}
+	}
+	nodes, err := e4.StartCluster(2, mutate)
 	if err != nil {
 		evid.Fatal("cluster: %v", err)
 	}
-	w := &tunnelWorld{nodes: nodes, echo: &echoBehaviour{sawEOF: make(chan struct{}, 8)}}
+	w := &tunnelWorld{tls: clientTLS, nodes: nodes, echo: &echoBehaviour{sawEOF: make(chan struct{}, 8)}}
 	w.echo.limit.Store(-1)
 	// t1: yamux session held by the harness on node 1
 	raw, err := dialRawWith(nodes[1].UpstreamAddr(), "t1", "raw", "", w.echo.serve)
@@ -483,7 +513,7 @@ func newTunnelWorld() *tunnelWorld {
 	}
 	// forward proxy: local TCP port -> dialer -> node 0 -> node 1 -> t1
 	w.fwdLn, _ = net.Listen("tcp", "127.0.0.1:0")
-	f := forward.NewForwarder("t1", &client.Dialer{URL: &url.URL{Scheme: "http", Host: nodes[0].ProxyAddr()}}, log.NewNopLogger())
+	f := forward.NewForwarder("t1", w.dialer(0), log.NewNopLogger())
 	go func() { _ = f.Forward(w.fwdLn) }()
 	if !e4.WaitFor(20*time.Second, func() bool {
 		n, ok := nodes[0].State().Node(nodes[1].ID)
@@ -492,6 +522,14 @@ func newTunnelWorld() *tunnelWorld {
 		evid.Fatal("tunnel cluster did not settle")
 	}
 	return w
+}
+
+func (w *tunnelWorld) dialer(node int) *client.Dialer {
+	scheme := "http"
+	if w.tls != nil {
+		scheme = "https"
+	}
+	return &client.Dialer{URL: &url.URL{Scheme: scheme, Host: w.nodes[node].ProxyAddr()}, TLSConfig: w.tls}
 }
 
 func (w *tunnelWorld) close() {
@@ -511,15 +549,15 @@ func (w *tunnelWorld) open(path string) (net.Conn, error) {
 	defer cancel()
 	switch path {
 	case "dialer-local":
-		return (&client.Dialer{URL: &url.URL{Scheme: "http", Host: w.nodes[1].ProxyAddr()}}).Dial(ctx, "t1")
+		return w.dialer(1).Dial(ctx, "t1")
 	case "dialer-forwarded":
-		return (&client.Dialer{URL: &url.URL{Scheme: "http", Host: w.nodes[0].ProxyAddr()}}).Dial(ctx, "t1")
+		return w.dialer(0).Dial(ctx, "t1")
 	case "forwarder":
 		return net.DialTimeout("tcp", w.fwdLn.Addr().String(), 10*time.Second)
 	case "agent-tcpproxy":
-		return (&client.Dialer{URL: &url.URL{Scheme: "http", Host: w.nodes[0].ProxyAddr()}}).Dial(ctx, "t2")
+		return w.dialer(0).Dial(ctx, "t2")
 	case "client-forwarder":
-		return (&client.Dialer{URL: &url.URL{Scheme: "http", Host: w.nodes[1].ProxyAddr()}}).Dial(ctx, "t3")
+		return w.dialer(1).Dial(ctx, "t3")
 	}
 	return nil, fmt.Errorf("unknown path %s", path)
 }
@@ -602,6 +640,86 @@ func (w *tunnelWorld) run(c tunnelCase) (sig, msg string) {
 	return "", ""
 }
 
+var tunnelPaths = []string{"dialer-local", "dialer-forwarded", "forwarder", "agent-tcpproxy", "client-forwarder"}
+
+// longLived: one tunnel per path, all open at once, used every 400ms for
+// longer than any dial/handshake deadline in the path (idle and busy
+// alternate); every byte must come back, nobody may see end-of-stream until
+// the client closes, and then the upstream must.
+func (w *tunnelWorld) longLived(world string, d time.Duration) (n int, fails [][2]string) {
+	var mu sync.Mutex
+	var wg sync.WaitGroup
+	for _, p := range tunnelPaths {
+		wg.Add(1)
+		n++
+		go func(p string) {
+			defer wg.Done()
+			fail := func(sig, msg string) {
+				mu.Lock()
+				fails = append(fails, [2]string{sig, fmt.Sprintf("%s world, path %s: %s", world, p, msg)})
+				mu.Unlock()
+			}
+			conn, err := w.open(p)
+			if err != nil {
+				fail("tunnel-open-failed", err.Error())
+				return
+			}
+			defer conn.Close()
+			t0 := time.Now()
+			buf := make([]byte, 64)
+			for i := 0; time.Since(t0) < d; i++ {
+				msg := []byte(fmt.Sprintf("chunk-%03d-%s", i, p))
+				_ = conn.SetDeadline(time.Now().Add(20 * time.Second))
+				if _, err := conn.Write(msg); err != nil {
+					fail("long-lived-tunnel-broken", fmt.Sprintf("write of chunk %d, %s after connect: %v", i, time.Since(t0).Round(time.Millisecond), err))
+					return
+				}
+				got := 0
+				for got < len(msg) {
+					k, err := conn.Read(buf[got:len(msg)])
+					got += k
+					if err != nil {
+						fail("long-lived-tunnel-broken", fmt.Sprintf("chunk %d, %s after connect: end of stream that neither side caused: %v", i, time.Since(t0).Round(time.Millisecond), err))
+						return
+					}
+				}
+				if !bytes.Equal(buf[:got], msg) {
+					fail("tunnel-bytes-differ", fmt.Sprintf("chunk %d echoed as %q", i, buf[:got]))
+					return
+				}
+				time.Sleep(400 * time.Millisecond)
+			}
+		}(p)
+	}
+	wg.Wait()
+	return n, fails
+}
+
+func writeSelfSigned(dir string) error {
+	key, err := ecdsa.GenerateKey(elliptic.P256(), rand.Reader)
+	if err != nil {
+		return err
+	}
+	tmpl := &x509.Certificate{
+		SerialNumber: big.NewInt(1), Subject: pkix.Name{CommonName: "verif"},
+		NotBefore: time.Now().Add(-time.Hour), NotAfter: time.Now().Add(24 * time.Hour),
+		KeyUsage: x509.KeyUsageDigitalSignature | x509.KeyUsageCertSign, ExtKeyUsage: []x509.ExtKeyUsage{x509.ExtKeyUsageServerAuth, x509.ExtKeyUsageClientAuth},
+		IsCA: true, BasicConstraintsValid: true, IPAddresses: []net.IP{net.ParseIP("127.0.0.1")}, DNSNames: []string{"localhost"},
+	}
+	der, err := x509.CreateCertificate(rand.Reader, tmpl, tmpl, &key.PublicKey, key)
+	if err != nil {
+		return err
+	}
+	kb, err := x509.MarshalECPrivateKey(key)
+	if err != nil {
+		return err
+	}
+	if err := os.WriteFile(filepath.Join(dir, "cert.pem"), pem.EncodeToMemory(&pem.Block{Type: "CERTIFICATE", Bytes: der}), 0o600); err != nil {
+		return err
+	}
+	return os.WriteFile(filepath.Join(dir, "key.pem"), pem.EncodeToMemory(&pem.Block{Type: "EC PRIVATE KEY", Bytes: kb}), 0o600)
+}
+
 func firstDiff(a, b []byte) int {
 	for i := 0; i < len(a) && i < len(b); i++ {
 		if a[i] != b[i] {
@@ -619,10 +737,54 @@ func init() {
 		run := evid.NewRun("C07", "exploration")
 		evals, nontrivial := adapterGrid(run, run.Thorough())
 		fmt.Printf("  C07 adapter grid: runs=%d\n", evals)
+		// long-lived tunnels on their own clusters (plaintext and TLS), alongside the grid
+		tlsDir, err := os.MkdirTemp("", "verif-c07-tls")
+		if err != nil {
+			evid.Fatal("tmp: %v", err)
+		}
+		defer os.RemoveAll(tlsDir)
+		if err := writeSelfSigned(tlsDir); err != nil {
+			evid.Fatal("self-signed certificate: %v", err)
+		}
+		type llRes struct {
+			n     int
+			fails [][2]string
+		}
+		llCh := make(chan llRes, 2)
+		for _, world := range []string{"plaintext", "tls"} {
+			go func(world string) {
+				dir := ""
+				if world == "tls" {
+					dir = tlsDir
+				}
+				lw := newTunnelWorldTLS(dir)
+				defer lw.close()
+				n, fails := lw.longLived(world, 6500*time.Millisecond)
+				llCh <- llRes{n, fails}
+			}(world)
+		}
 		w := newTunnelWorld()
+		wt := newTunnelWorldTLS(tlsDir)
 		sizes := []int{1, 3, 65537, 300 * 1024}
 		tn := 0
-		for _, p := range []string{"dialer-local", "dialer-forwarded", "forwarder", "agent-tcpproxy", "client-forwarder"} {
+		for _, p := range tunnelPaths {
+			// the TLS cluster: the same paths, two sizes
+			for _, sz := range []int{3, 65537} {
+				for _, closer := range []string{"client", "upstream"} {
+					c := tunnelCase{Path: p, Size: sz, Closer: closer, TLS: true}
+					if run.Violations() >= 3 {
+						continue
+					}
+					sig, msg := wt.run(c)
+					if sig == "tunnel-open-failed" {
+						sig, msg = wt.run(c)
+					}
+					tn++
+					if sig != "" {
+						run.Violation("C07", sig, msg, map[string]any{"engine": "E4-C07", "case": c})
+					}
+				}
+			}
 			for _, sz := range sizes {
 				for _, empty := range []bool{false, true} {
 					for _, closer := range []string{"client", "upstream"} {
@@ -646,10 +808,18 @@ func init() {
 			}
 		}
 		w.close()
+		wt.close()
+		for i := 0; i < 2; i++ {
+			r := <-llCh
+			tn += r.n
+			for _, f := range r.fails {
+				run.Violation("C07", f[0], f[1], map[string]any{"engine": "E4-C07", "long_lived": f[1]})
+			}
+		}
 		fmt.Printf("  C07 tunnels: cases=%d\n", tn)
 		run.Set("evaluations", evals+tn)
 		run.Set("distinct_nontrivial", nontrivial+tn)
-		run.Set("rule", "adapter: payload of n distinct bytes x every composition into messages x every placement of up to two empty messages x 8 read-buffer patterns x transport read limits {1,2,5,unlimited}, directions alternating on one connection, plus text message / ping / close frame / abrupt end; non-trivial = more than one message, an empty message or a fragmenting transport. tunnels: 5 paths (dialer local, dialer forwarded, forward proxy, agent TCP proxy, client forwarder) x sizes {1,3,64KiB+1,300KiB} x empty write between x closer {client, upstream}")
+		run.Set("rule", "adapter: payload of n distinct bytes x every composition into messages x every placement of up to two empty messages x 8 read-buffer patterns x transport read limits {1,2,5,unlimited}, directions alternating on one connection, plus text message / ping / close frame / abrupt end; non-trivial = more than one message, an empty message or a fragmenting transport. tunnels: 5 paths (dialer local, dialer forwarded, forward proxy, agent TCP proxy, client forwarder) x sizes {1,3,64KiB+1,300KiB} x empty write between x closer {client, upstream}; the same paths on a cluster whose proxy ports and node-to-node forwarding use TLS x sizes {3,64KiB+1} x closer; one long-lived tunnel per path on a plaintext and a TLS cluster, used every 400ms for 6.5s")
 		run.Set("exhaustive", true)
 		run.Assume("tunnel half: goroutine schedules inside yamux/gorilla/net are free-running")
 		return run.Finish()
